@@ -16,6 +16,7 @@ pub struct CrdtSession {
     pub replicas: BTreeMap<String, AutoCommit>,
     pub changes: BTreeMap<String, Change>,
     pub enc: Option<TextEncoding>,
+    pub files: BTreeMap<String, (Vec<u8>, Vec<(usize, String)>)>,
 }
 
 // ---------- canonical text forms (shared with Lean `Spec.show*`) ----------
@@ -169,6 +170,13 @@ pub fn show_doc(doc: &AutoCommit, heads: Option<&[ChangeHash]>, enc: TextEncodin
     show_obj(doc, &ROOT, ObjType::Map, heads, enc, 0)
 }
 
+pub fn state_digest(d: &AutoCommit, enc: TextEncoding) -> String {
+    use sha2::Digest;
+    let mut d2 = d.clone();
+    let text = format!("{} {}", show_doc(d, None, enc), show_hashes(&d2.get_heads()));
+    hex::encode(&sha2::Sha256::digest(text.as_bytes())[..8])
+}
+
 fn show_hashes(hs: &[ChangeHash]) -> String {
     if hs.is_empty() { return "-".into(); }
     let mut v: Vec<String> = hs.iter().map(|h| hex::encode(h.0)).collect();
@@ -262,6 +270,60 @@ pub fn exec(s: &mut CrdtSession, toks: &[&str]) -> Vec<String> {
             let hs = parse_hashes(toks[2]);
             let d = s.replicas.get_mut(toks[1]).unwrap();
             vec![show_doc(d, Some(&hs), enc)]
+        }
+        // ----- storage -----
+        "crdt.file" => {
+            // crdt.file f <hex> <boundary:digest,…> : digest = sha256 of the writer's state text at that boundary
+            let exp: Vec<(usize, String)> = if toks.len() > 3 && toks[3] != "-" {
+                toks[3].split(',').map(|x| { let (b, d) = x.split_once(':').unwrap(); (b.parse().unwrap(), d.to_string()) }).collect()
+            } else { vec![] };
+            s.files.insert(toks[1].to_string(), (unhx(toks[2]), exp));
+            vec!["ok".into()]
+        }
+        "crdt.docchunk" => vec!["ok".into()],
+        "crdt.loadcut" | "crdt.loadflip" => {
+            let (file, exp) = s.files.get(toks[3]).expect("file").clone();
+            let strict = toks[2] == "error";
+            let n: usize = toks[4].parse().unwrap();
+            let data: Vec<u8> = if toks[0] == "crdt.loadcut" { file[..n.min(file.len())].to_vec() } else {
+                let mut d = file.clone(); if n / 8 < d.len() { d[n / 8] ^= 1 << (n % 8); } d };
+            let opts = automerge::LoadOptions::new()
+                .on_partial_load(if strict { automerge::OnPartialLoad::Error } else { automerge::OnPartialLoad::Ignore })
+                .text_encoding(enc);
+            let pid = if toks[0] == "crdt.loadcut" { "C13" } else { "C14" };
+            match AutoCommit::load_with_options(&data, opts) {
+                Ok(mut d) => {
+                    let mut res = vec![format!("ok {}", summary(&mut d))];
+                    let digest = state_digest(&d, enc);
+                    if toks[0] == "crdt.loadcut" {
+                        // C13 direct oracle: the document as of the last chunk fully inside the cut
+                        let at = exp.iter().filter(|(b, _)| *b <= n).last();
+                        match at {
+                            Some((b, dg)) => {
+                                if *dg != digest { res.push(format!("! C13 sig=wrong-doc cut {} of {} loaded a document different from the writer's at boundary {}", n, file.len(), b)); }
+                                if strict && *b != n { res.push(format!("! C13 sig=strict-accepts strict load accepted a cut at {} which is not a chunk boundary", n)); }
+                            }
+                            None => if n != 0 { res.push(format!("! C13 sig=first-chunk cut {} inside the first chunk loaded successfully", n)); },
+                        }
+                    } else {
+                        let full = exp.last().map(|x| x.1.clone()).unwrap_or_default();
+                        if digest != full { res.push(format!("! C14 sig=different-doc bit {} flipped: load succeeded with a DIFFERENT document", n)); }
+                        else { res.push(format!("! C14 sig=accepted-equal bit {} flipped: load succeeded (equal document)", n)); }
+                    }
+                    s.replicas.insert(toks[1].to_string(), d);
+                    res
+                }
+                Err(_) => {
+                    let mut res = vec!["err".to_string()];
+                    if toks[0] == "crdt.loadcut" {
+                        let on_boundary = exp.iter().any(|(b, _)| *b == n) || n == 0;
+                        let has_first = exp.first().map(|(b, _)| *b <= n).unwrap_or(false) || n == 0;
+                        if strict && on_boundary { res.push(format!("! C13 sig=strict-rejects strict load rejected a cut at chunk boundary {}", n)); }
+                        if !strict && has_first { res.push(format!("! C13 sig=partial-rejects partial load rejected cut {} although the first chunk is complete", n)); }
+                    }
+                    res
+                }
+            }
         }
         // ----- local edits -----
         "crdt.put" => {
@@ -396,64 +458,7 @@ pub fn generate(r: &mut Rng, _opts: &BTreeMap<String, String>, sess: &mut Sessio
                 out.count("deliver_all_shuffled");
             }
             _ => {
-                // a local transaction of 1..4 edits
-                let nedits = r.range(1, 4);
-                for _ in 0..nedits {
-                    // refresh the list of objects this replica can see
-                    let d = sess.crdt.replicas.get_mut(&who).unwrap();
-                    let mut objs: Vec<(String, ObjType)> = vec![("_".into(), ObjType::Map)];
-                    collect_objs(d, &ROOT, ObjType::Map, &mut objs, 0);
-                    if r.chance(1, 12) && !known_objs.is_empty() {
-                        // an object id this replica may not contain (invalid-call stream)
-                        objs.push(known_objs[r.below(known_objs.len() as u64) as usize].clone());
-                    }
-                    let (obj, ty) = objs[r.below(objs.len() as u64) as usize].clone();
-                    let d = sess.crdt.replicas.get_mut(&who).unwrap();
-                    let len = d.length(parse_exid(&obj)) as u64;
-                    let line = match ty {
-                        ObjType::Map | ObjType::Table => {
-                            let k = format!("m{}", hex::encode(KEYS[r.below(KEYS.len() as u64) as usize].as_bytes()));
-                            match r.below(10) {
-                                0 | 1 => format!("crdt.putobj {} {} {} {}", who, obj, k, ["M", "L", "T"][r.below(3) as usize]),
-                                2 => format!("crdt.del {} {} {}", who, obj, k),
-                                3 | 4 => format!("crdt.inc {} {} {} {}", who, obj, k, r.below(5) as i64 - 1),
-                                _ => format!("crdt.put {} {} {} {}", who, obj, k, rand_scalar(r)),
-                            }
-                        }
-                        ObjType::List => {
-                            let idx = if r.chance(1, 15) { len + 1 + r.below(3) } else { r.below(len + 1) };
-                            match r.below(10) {
-                                0 => format!("crdt.insobj {} {} {} {}", who, obj, idx.min(len), ["M", "L", "T"][r.below(3) as usize]),
-                                1 | 2 if len > 0 => format!("crdt.del {} {} i{}", who, obj, r.below(len)),
-                                3 if len > 0 => format!("crdt.inc {} {} i{} {}", who, obj, r.below(len), r.below(5) as i64 - 1),
-                                4 | 5 if len > 0 => format!("crdt.put {} {} i{} {}", who, obj, r.below(len), rand_scalar(r)),
-                                _ => format!("crdt.ins {} {} {} {}", who, obj, idx, rand_scalar(r)),
-                            }
-                        }
-                        ObjType::Text => {
-                            let pos = if r.chance(1, 15) { len + 1 } else { r.below(len + 1) };
-                            let del = if len > pos && r.chance(1, 3) { r.range(1, (len - pos).min(3)) } else { 0 };
-                            let txt = ["a", "bc", "é", "🙂", "xyz", "", "e\u{301}"][r.below(7) as usize];
-                            format!("crdt.splice {} {} {} {} {}", who, obj, pos, del, hx(txt.as_bytes()))
-                        }
-                    };
-                    let res = exec_line(sess, &line, out);
-                    out.count(&format!("edit_{}", line.split(' ').next().unwrap()));
-                    if res.get(0).map(|s| s.starts_with("err")).unwrap_or(false) { out.count("edit_errors"); }
-                }
-                let res = exec_line(sess, &format!("crdt.commit {}", who), out);
-                if res[0] == "ok" {
-                    let d = sess.crdt.replicas.get_mut(&who).unwrap();
-                    let c = d.get_last_local_change().unwrap();
-                    let h = hex::encode(c.hash().0);
-                    exec_line(sess, &def_line(&c), out);
-                    exec_line(sess, &format!("crdt.local {} {}", who, h), out);
-                    all_changes.push(h);
-                    let d = sess.crdt.replicas.get_mut(&who).unwrap();
-                    let mut objs = vec![];
-                    collect_objs(d, &ROOT, ObjType::Map, &mut objs, 0);
-                    for o in objs { if !known_objs.contains(&o) { known_objs.push(o); } }
-                }
+                local_tx(r, sess, out, &who, &mut known_objs, &mut all_changes);
             }
         }
         if r.chance(1, 3) { observe(sess, out, &names); }
@@ -478,6 +483,71 @@ pub fn generate(r: &mut Rng, _opts: &BTreeMap<String, String>, sess: &mut Sessio
     }
 }
 
+
+/// one local transaction of 1..4 random edits on replica `who`, committed; announces the new change
+pub fn local_tx(r: &mut Rng, sess: &mut Session, out: &mut Out, who: &str, known_objs: &mut Vec<(String, ObjType)>, all_changes: &mut Vec<String>) {
+    let who = who.to_string();
+    // a local transaction of 1..4 edits
+    let nedits = r.range(1, 4);
+    for _ in 0..nedits {
+        // refresh the list of objects this replica can see
+        let d = sess.crdt.replicas.get_mut(&who).unwrap();
+        let mut objs: Vec<(String, ObjType)> = vec![("_".into(), ObjType::Map)];
+        collect_objs(d, &ROOT, ObjType::Map, &mut objs, 0);
+        if r.chance(1, 12) && !known_objs.is_empty() {
+            // an object id this replica may not contain (invalid-call stream)
+            objs.push(known_objs[r.below(known_objs.len() as u64) as usize].clone());
+        }
+        let (obj, ty) = objs[r.below(objs.len() as u64) as usize].clone();
+        let d = sess.crdt.replicas.get_mut(&who).unwrap();
+        let len = d.length(parse_exid(&obj)) as u64;
+        let line = match ty {
+            ObjType::Map | ObjType::Table => {
+                let k = format!("m{}", hex::encode(KEYS[r.below(KEYS.len() as u64) as usize].as_bytes()));
+                match r.below(10) {
+                    0 | 1 => format!("crdt.putobj {} {} {} {}", who, obj, k, ["M", "L", "T"][r.below(3) as usize]),
+                    2 => format!("crdt.del {} {} {}", who, obj, k),
+                    3 | 4 => format!("crdt.inc {} {} {} {}", who, obj, k, r.below(5) as i64 - 1),
+                    _ => format!("crdt.put {} {} {} {}", who, obj, k, rand_scalar(r)),
+                }
+            }
+            ObjType::List => {
+                let idx = if r.chance(1, 15) { len + 1 + r.below(3) } else { r.below(len + 1) };
+                match r.below(10) {
+                    0 => format!("crdt.insobj {} {} {} {}", who, obj, idx.min(len), ["M", "L", "T"][r.below(3) as usize]),
+                    1 | 2 if len > 0 => format!("crdt.del {} {} i{}", who, obj, r.below(len)),
+                    3 if len > 0 => format!("crdt.inc {} {} i{} {}", who, obj, r.below(len), r.below(5) as i64 - 1),
+                    4 | 5 if len > 0 => format!("crdt.put {} {} i{} {}", who, obj, r.below(len), rand_scalar(r)),
+                    _ => format!("crdt.ins {} {} {} {}", who, obj, idx, rand_scalar(r)),
+                }
+            }
+            ObjType::Text => {
+                let pos = if r.chance(1, 15) { len + 1 } else { r.below(len + 1) };
+                let del = if len > pos && r.chance(1, 3) { r.range(1, (len - pos).min(3)) } else { 0 };
+                let txt = ["a", "bc", "é", "🙂", "xyz", "", "e\u{301}"][r.below(7) as usize];
+                format!("crdt.splice {} {} {} {} {}", who, obj, pos, del, hx(txt.as_bytes()))
+            }
+        };
+        let res = exec_line(sess, &line, out);
+        out.count(&format!("edit_{}", line.split(' ').next().unwrap()));
+        if res.get(0).map(|s| s.starts_with("err")).unwrap_or(false) { out.count("edit_errors"); }
+    }
+    let res = exec_line(sess, &format!("crdt.commit {}", who), out);
+    if res[0] == "ok" {
+        let d = sess.crdt.replicas.get_mut(&who).unwrap();
+        let c = d.get_last_local_change().unwrap();
+        let h = hex::encode(c.hash().0);
+        exec_line(sess, &def_line(&c), out);
+        exec_line(sess, &format!("crdt.local {} {}", who, h), out);
+        all_changes.push(h);
+        let d = sess.crdt.replicas.get_mut(&who).unwrap();
+        let mut objs = vec![];
+        collect_objs(d, &ROOT, ObjType::Map, &mut objs, 0);
+        for o in objs { if !known_objs.contains(&o) { known_objs.push(o); } }
+    }
+
+}
+
 fn collect_objs(d: &AutoCommit, obj: &ObjId, ty: ObjType, out: &mut Vec<(String, ObjType)>, depth: usize) {
     if depth > 6 { return; }
     match ty {
@@ -496,5 +566,100 @@ fn collect_objs(d: &AutoCommit, obj: &ObjId, ty: ObjType, out: &mut Vec<(String,
             }
         }
         ObjType::Text => {}
+    }
+}
+
+
+// ------------------------------------------------------------------ storage generator (C11 C12 C13 C14)
+
+/// split a byte string made of whole chunks into (type, chunk hash, start, end)
+pub fn chunk_bounds(data: &[u8]) -> Vec<(u8, Vec<u8>, usize, usize)> {
+    use sha2::Digest;
+    let mut res = vec![];
+    let mut pos = 0;
+    while pos + 9 <= data.len() {
+        let ty = data[pos + 8];
+        let mut rd = &data[pos + 9..];
+        let before = rd.len();
+        let len = leb128::read::unsigned(&mut rd).expect("len") as usize;
+        let hdr = 9 + (before - rd.len());
+        let body = &data[pos + hdr..pos + hdr + len];
+        let mut h = sha2::Sha256::new();
+        let mut pre = vec![ty];
+        leb128::write::unsigned(&mut pre, len as u64).unwrap();
+        h.update(&pre); h.update(body);
+        res.push((ty, h.finalize().to_vec(), pos, pos + hdr + len));
+        pos += hdr + len;
+    }
+    res
+}
+
+pub fn generate_storage(r: &mut Rng, opts: &BTreeMap<String, String>, sess: &mut Session, out: &mut Out) {
+    let all_cuts = opts.get("allcuts").map(|s| s == "1").unwrap_or(false);
+    let nflips: u64 = opts.get("flips").map(|s| s.parse().unwrap()).unwrap_or(40);
+    let enc = ["cp", "utf8", "utf16"][r.below(3) as usize];
+    let e = parse_enc(enc);
+    exec_line(sess, &format!("crdt.new w {} {}", enc, hex::encode(r.bytes(2))), out);
+    let mut known = vec![("_".to_string(), ObjType::Map)];
+    let mut all = vec![];
+    let mut file: Vec<u8> = vec![];
+    let mut exp: Vec<(usize, String)> = vec![];
+    let pieces = r.range(2, 5);
+    let deflate = r.chance(1, 2);
+    for p in 0..pieces {
+        let ntx = if p == 0 { r.range(0, 8) } else { r.range(1, 3) };
+        for _ in 0..ntx { local_tx(r, sess, out, "w", &mut known, &mut all); }
+        let d = sess.crdt.replicas.get_mut("w").unwrap();
+        let bytes = if p == 0 {
+            let b = d.save_with_options(automerge::SaveOptions { deflate, retain_orphans: true });
+            let _ = d.save_incremental(); // move the incremental cursor to now
+            b
+        } else { d.save_incremental() };
+        if bytes.is_empty() { continue; }
+        // announce document chunks (the model cannot open them yet): chunk hash -> changes inside
+        let doc_hashes: Vec<String> = d.get_changes(&[]).iter().map(|c| hex::encode(c.hash().0)).collect();
+        for (ty, h, _, _) in chunk_bounds(&bytes) {
+            if ty == 0 {
+                let hs = doc_hashes.clone();
+                exec_line(sess, &format!("crdt.docchunk {} {}", hex::encode(&h), if hs.is_empty() { "-".to_string() } else { hs.join(",") }), out);
+            }
+        }
+        let base = file.len();
+        let d = sess.crdt.replicas.get_mut("w").unwrap();
+        let digest = state_digest(d, e);
+        let cb = chunk_bounds(&bytes);
+        for (i, (_, _, _, end)) in cb.iter().enumerate() {
+            // inside one incremental piece made of several change chunks only the last boundary has a
+            // writer snapshot; intermediate boundaries get the digest of loading exactly that prefix
+            if i + 1 == cb.len() { exp.push((base + end, digest.clone())); }
+        }
+        file.extend(&bytes);
+        out.count(&format!("piece_{}", if p == 0 { if deflate { "save_deflate" } else { "save_plain" } } else { "incremental" }));
+    }
+    if file.is_empty() { return; }
+    let exps: Vec<String> = exp.iter().map(|(b, d)| format!("{}:{}", b, d)).collect();
+    exec_line(sess, &format!("crdt.file f {} {}", hx(&file), exps.join(",")), out);
+    out.add("file_bytes", file.len() as u64);
+    // cuts
+    let mut cuts: Vec<usize> = vec![0, 1, 8, 9, file.len()];
+    for (b, _) in &exp { for d in [-3i64, -1, 0, 1, 3] { let k = *b as i64 + d; if k >= 0 && k as usize <= file.len() { cuts.push(k as usize); } } }
+    if all_cuts { cuts.extend(0..=file.len()); } else { for _ in 0..20 { cuts.push(r.below(file.len() as u64 + 1) as usize); } }
+    cuts.sort(); cuts.dedup();
+    // only cuts that fall on a recorded writer boundary or strictly inside a piece are judged by the oracle;
+    // pieces with several change chunks have unrecorded inner boundaries: skip those offsets
+    let inner: Vec<usize> = chunk_bounds(&file).iter().map(|x| x.3).filter(|b| !exp.iter().any(|(e, _)| e == b)).collect();
+    for k in cuts {
+        if inner.iter().any(|b| k >= *b && exp.iter().all(|(e, _)| !(*e <= k && *e >= *b))) { continue; }
+        exec_line(sess, &format!("crdt.loadcut x ignore f {}", k), out);
+        exec_line(sess, &format!("crdt.loadcut y error f {}", k), out);
+        out.count("cuts");
+        if r.chance(1, 8) && sess.crdt.replicas.contains_key("x") { exec_line(sess, "crdt.state x", out); }
+    }
+    // single-bit flips
+    let nbits = file.len() * 8;
+    let flips: Vec<usize> = if nflips as usize >= nbits { (0..nbits).collect() } else { (0..nflips).map(|_| r.below(nbits as u64) as usize).collect() };
+    for b in flips {
+        exec_line(sess, &format!("crdt.loadflip z error f {}", b), out);
+        out.count("flips");
     }
 }
